@@ -163,6 +163,42 @@ def line_parser_rules(ctx):
                   "every line that is not stored as a command line resets the `%s` flag (a `> ` line continues a command only directly after it)" % flags[0],
                   "an exit-code or expectation line can be accepted without resetting `%s`: an output line starting with `> ` after `[n]` is appended to the shell "
                   "expression instead of becoming an expectation" % flags[0])
+    # a `> ` line is stored only onto a command that has a start: the in-command flag survives the end of a test case (flush leaves it), so without the
+    # `command.is_empty()` test a `> ` line behind a closed test case would open a command that no `$ ` line started
+    cont = []
+    for pb, pt in pushes:
+        if lp.arg_name(pt["args"][0]).endswith(prog.field_by_type("LineParser", "Vec<String>", "command")):
+            pre = [const_str_of(prog, lp, n.kids[1]) for n in ol.operand(pt["args"][1]).walk() if n.kind == "call" and method_name(n.a) == "str::strip_prefix"]
+            if pre == ["> "]:
+                cont.append(pb)
+    from ..cfgq import bool_edges as _be, cond_tree as _ct, switches as _sw
+    guarded = []
+    for pb in cont:
+        ok = False
+        for sb, st in _sw(lp):
+            be = _be(lp, sb)
+            if be is None:
+                continue
+            tree = _ct(lp, sb, ol)
+            neg = False
+            while tree.kind == "un" and tree.a == "Not":
+                neg, tree = not neg, tree.kids[0]
+            if tree.kind == "call" and method_name(tree.a) in ("Vec::is_empty", "slice::is_empty") and any(n.kind == "field" and n.a == prog.field_by_type("LineParser", "Vec<String>", "command") for n in tree.walk()):
+                nonempty = be[0] if neg else be[1]
+                if pb in lp.reachable(nonempty) and pb not in lp.reachable(0, removed_edges=[(sb, nonempty)]):
+                    ok = True
+        guarded.append(ok)
+    fl = prog.find_fns("LineParser::flush")
+    flush_resets = False
+    if fl and len(flags) == 1:
+        for blk in fl[0].blocks:
+            for st in blk["stmts"]:
+                if st["k"] == "assign" and [p_.get("n") for p_ in st["lhs"]["p"] if isinstance(p_, dict)][-1:] == [flags[0]]:
+                    flush_resets = True
+    ctx.check(bool(cont) and (all(guarded) or flush_resets), "continuation-needs-command", lp.loc(cont[0]) if cont else lp.where(),
+              "a `> ` line extends a command only when one was started (command non-empty on the path, or flush() resets the in-command flag)",
+              "a `> ` line is pushed onto the command without a `command.is_empty()` test while flush() leaves the in-command flag set: `  $ cat <<EOF`, empty line, "
+              "`  > hello` opens a second test case whose command no `$ ` line started (more tests than `$` lines, a line number past the document)")
     ex = _call(lp, "extract_exit_code")
     ctx.check(len(ex) == 1 and peel(ol.operand(ex[0][1]["args"][0])).kind == "arg", "exit-code-line", lp.where(), "the exit code is extracted from the unmodified line")
 
